@@ -29,6 +29,15 @@ func New(name, dir string) Keybase {
 }
 
 func (kb *lazyKeybase) GetCoinbase() (KeyPair, error) {
+	if kb.coinbase.PrivKeyArmor != "" {
+		// the remembered pair may have been deleted or re-encrypted since: hand out what is stored
+		kp, err := kb.Get(kb.coinbase.GetAddress())
+		if err != nil {
+			kb.coinbase = KeyPair{}
+		} else {
+			kb.coinbase = kp
+		}
+	}
 	if kb.coinbase.PrivKeyArmor == "" {
 		kps, err := kb.List()
 		if err != nil {
